@@ -325,7 +325,7 @@ impl<'a> Cx<'a> {
 
     /// `x[i]`, `x[..n]` on vectors, slices and reverse views (rule 18)
     pub fn lower_index(&mut self, ix: &syn::ExprIndex) -> R<Val> {
-        let base = self.lower_expr(&ix.expr, None)?;
+        let base = self.lower_recv(&ix.expr, None)?;
         if base.ty != Ty::Bytes {
             self.limb_check(ix.span())?;
         }
@@ -407,7 +407,7 @@ impl<'a> Cx<'a> {
         let args: Vec<&syn::Expr> = m.args.iter().collect();
         // ---- `.unwrap()`
         if name == "unwrap" && args.is_empty() {
-            let v = self.lower_expr(&m.receiver, None)?;
+            let v = self.lower_recv(&m.receiver, None)?;
             return match &v.ty {
                 Ty::OptUpd => {
                     let pats: Vec<String> = v.upd.iter().map(|x| self.cn(x)).collect();
@@ -427,7 +427,7 @@ impl<'a> Cx<'a> {
         }
         // ---- rule 25: `.is_some()`, `.is_none()`, `.map_or(d, |p| pure)` on an Option
         if (name == "is_some" || name == "is_none") && args.is_empty() {
-            let v = self.lower_expr(&m.receiver, None)?;
+            let v = self.lower_recv(&m.receiver, None)?;
             return match &v.ty {
                 Ty::Opt(_) => {
                     let (a, b) = if name == "is_some" { ("true", "false") } else { ("false", "true") };
@@ -437,12 +437,14 @@ impl<'a> Cx<'a> {
             };
         }
         if name == "map_or" && args.len() == 2 {
-            let v = self.lower_expr(&m.receiver, None)?;
+            let v = self.lower_recv(&m.receiver, None)?;
             let inner = match &v.ty {
                 Ty::Opt(t) => (**t).clone(),
                 t => return err(sp, format!("`map_or` on a value of type {}", t)),
             };
+            let after_v = self.assign_log.len();
             let d = self.lower_expr(args[0], expected)?;
+            self.no_stale_reads(sp, &[(v.t.clone(), after_v)])?;
             let c = match args[1] {
                 syn::Expr::Closure(c) if c.inputs.len() == 1 => c,
                 a => return err(a.span(), "`map_or` needs a one-parameter closure"),
@@ -499,7 +501,11 @@ impl<'a> Cx<'a> {
         }
         // ---- `.any(|x| pure)` on an iterator expression
         if name == "any" && args.len() == 1 {
-            let (l, ety) = self.lower_seq(&m.receiver)?;
+            // `Iterator::any` takes `&mut self`: on a variable it would advance it (C-ANY)
+            self.seq_temp_only = true;
+            let r = self.lower_seq(&m.receiver);
+            self.seq_temp_only = false;
+            let (l, ety) = r?;
             let c = match args[0] {
                 syn::Expr::Closure(c) if c.inputs.len() == 1 => c,
                 a => return err(a.span(), "`any` needs a one-parameter closure"),
@@ -543,7 +549,7 @@ impl<'a> Cx<'a> {
         match (&rty, name.as_str()) {
             // ---- integers
             (Ty::Int(_), "cmp") if args.len() == 1 => {
-                let a = self.lower_expr(&m.receiver, Some(&rty))?;
+                let a = self.lower_recv(&m.receiver, Some(&rty))?;
                 let after_a = self.assign_log.len();
                 let b = self.lower_expr(strip_ref(args[0]), Some(&rty))?;
                 self.no_stale_reads(sp, &[(a.t.clone(), after_a)])?;
@@ -593,16 +599,16 @@ impl<'a> Cx<'a> {
             // ---- slices
             (Ty::Bytes, "len") => {
                 noargs(args.len())?;
-                let r = self.lower_expr(&m.receiver, None)?;
+                let r = self.lower_recv(&m.receiver, None)?;
                 Ok(Some(Val::new(format!("(zlen {})", r.t), USIZE)))
             }
             (Ty::Bytes, "is_empty") => {
                 noargs(args.len())?;
-                let r = self.lower_expr(&m.receiver, None)?;
+                let r = self.lower_recv(&m.receiver, None)?;
                 Ok(Some(Val::new(format!("(zlen {} =? 0)", r.t), Ty::Bool)))
             }
             (Ty::Bytes, "get") if args.len() == 1 => {
-                let r = self.lower_expr(&m.receiver, None)?;
+                let r = self.lower_recv(&m.receiver, None)?;
                 let after_r = self.assign_log.len();
                 let i = self.lower_expr(args[0], Some(&USIZE))?;
                 self.no_stale_reads(sp, &[(r.t.clone(), after_r)])?;
@@ -613,21 +619,21 @@ impl<'a> Cx<'a> {
             }
             (Ty::Bytes, "first") => {
                 noargs(args.len())?;
-                let r = self.lower_expr(&m.receiver, None)?;
+                let r = self.lower_recv(&m.receiver, None)?;
                 Ok(Some(Val::new(format!("(hd_error {})", r.t), Ty::Opt(Box::new(Ty::Int(IntTy::U8))))))
             }
             (Ty::Slice, "len") => {
                 noargs(args.len())?;
-                let r = self.lower_expr(&m.receiver, None)?;
+                let r = self.lower_recv(&m.receiver, None)?;
                 Ok(Some(Val::new(format!("(zlen {})", r.t), USIZE)))
             }
             (Ty::Slice, "is_empty") => {
                 noargs(args.len())?;
-                let r = self.lower_expr(&m.receiver, None)?;
+                let r = self.lower_recv(&m.receiver, None)?;
                 Ok(Some(Val::new(format!("(zlen {} =? 0)", r.t), Ty::Bool)))
             }
             (Ty::Slice, "get") | (Ty::Vec, "get") if args.len() == 1 => {
-                let r = self.lower_expr(&m.receiver, None)?;
+                let r = self.lower_recv(&m.receiver, None)?;
                 let after_r = self.assign_log.len();
                 let r = self.coerce(r, &Ty::Slice);
                 let i = self.lower_expr(args[0], Some(&USIZE))?;
@@ -641,7 +647,7 @@ impl<'a> Cx<'a> {
             (Ty::Vec, "len") | (Ty::Vec, "capacity") | (Ty::Vec, "is_empty") => {
                 noargs(args.len())?;
                 self.limb_check(sp)?;
-                let r = self.lower_expr(&m.receiver, None)?;
+                let r = self.lower_recv(&m.receiver, None)?;
                 Ok(Some(match name.as_str() {
                     "len" => Val::new(format!("(vlen {})", r.t), USIZE),
                     "capacity" => Val::new(format!("(vcap {})", r.t), USIZE),
